@@ -53,6 +53,7 @@ func pairSpace(tier, opt string) []pairLeg {
 	} else {
 		add("U", U(un))
 	}
+	add("deep", Deep(thorough || o == "none" || o == "MERGE"))
 	switch {
 	case o == "none":
 		if thorough {
